@@ -44,6 +44,7 @@ fn main() {
         "soak" => fqv::scen_hist::soak(&mut sink, seed, thorough),
         "threads" => fqv::scen_hist::threads(&mut sink, seed, thorough, 1_000_000),
         "fileio" => fqv::scen_file::fileio(&mut sink, seed, thorough, &arg(&args, "--replay-in", "")),
+        "fileconc" => fqv::scen_file::fileconc(&mut sink, seed, thorough, &arg(&args, "--replay-in", "")),
         "sessions" => fqv::scen_render::sessions(&mut sink, seed, thorough, &arg(&args, "--alphabet", ""), &arg(&args, "--replay-in", "")),
         "callbacks" => fqv::scen_render::callbacks(&mut sink, seed, thorough),
         "conv" => fqv::scen_render::conv(&mut sink, seed, thorough),
